@@ -364,6 +364,11 @@ func hC07HttpBodyResp() {
 		msgs = append(msgs, wireMsg{abstract: toyAppendFields(false, nil, fm)}) // the proto toy codec is the identity
 	}
 	backend.script = &respScript{msgs: msgs}
+	failing := verifChoose("backendFails", 2) == 1
+	if failing {
+		// the backend fails after the messages it has sent
+		backend.script.errCode, backend.script.errMsg, backend.script.errAfter = 5, "nf", len(msgs)
+	}
 	req := &http.Request{Method: "GET", URL: &url.URL{Path: "/download/x"}, Proto: "HTTP/1.1", ProtoMajor: 1, ProtoMinor: 1,
 		Header: http.Header{}, Body: &fakeBody{}, ContentLength: 0}
 	sink := newFakeSink()
@@ -375,6 +380,12 @@ func hC07HttpBodyResp() {
 	verifReach("httpbody-download-served")
 	verifAssert(backend.rec.calls == 1, "C07: an HttpBody download matching the rule is dispatched")
 	if backend.rec.calls != 1 {
+		return
+	}
+	if failing {
+		verifReach("httpbody-download-failed")
+		verifAssert(sink.status == 404, "C03: a failed download is reported with the error's HTTP status")
+		verifAssert(sink.headSnap.Get("Content-Type") == "application/json", "C03: the error body of a failed HttpBody download is declared as JSON, not as the download's media type")
 		return
 	}
 	verifAssert(sink.status == 200, "C07: an HttpBody download succeeds")
